@@ -167,7 +167,11 @@ def main():
     if a.phase in ("checks", "report"):
         surv = json.load(open(sfile))
         res = json.load(open(rfile)) if os.path.exists(rfile) else {}
-        rows = ["| mutant | file | function | edit | detected by | message |", "|---|---|---|---|---|---|"]
+        notes = {}
+        np = os.path.join(OUT, "notes.json")
+        if os.path.exists(np):
+            notes = json.load(open(np))
+        rows = ["| mutant | file | function | edit | detected by | message / manual classification of undetected ones |", "|---|---|---|---|---|---|"]
         det = 0
         for e in surv:
             r = res.get(e["id"])
@@ -175,7 +179,7 @@ def main():
                 continue
             det += 1 if r.get("detected_by") else 0
             rows.append("| %s | %s:%d | %s | %s | %s | %s |" % (e["id"], e["file"], e["line"] + 1, e["func"], (e["kind"] + (" `%s`" % e["old"] if e["col"] < 0 else "")).replace("|", "/"),
-                                                            r.get("detected_by") or ("INFRA " + r.get("infra", "") if r.get("infra") else ("equivalent: " + r["equivalent"] if r.get("equivalent") else "**none**")), r.get("message", "").replace("|", "/")[:160]))
+                                                            r.get("detected_by") or ("INFRA " + r.get("infra", "") if r.get("infra") else ("equivalent: " + r["equivalent"] if r.get("equivalent") else "**none**")), (r.get("message", "") or notes.get(e["id"], "")).replace("|", "/")[:200]))
         open(os.path.join(ROOT, "mutants", "SWEEP.md"), "w").write(
             "# Mutation sweep: suite-surviving mutants vs the quick checks\n\nGenerated by tools/mutsweep.py (phase 2 runs every quick check with a QUARTER of its case budget, in the order C01 C02 C16 C11 C07 C14 C10 C09 C06 C05 C08 C17 C13 C04 C03 C15 C12, until one reports a violation). %d survivors judged, %d detected; the rest are listed as none (inspected: dead branches, pointer clean-up, capacity hints and other equivalent mutants unless noted in DESIGN.md).\n\n" % (len(rows) - 2, det) + "\n".join(rows) + "\n")
         print("judged", len(rows) - 2, "detected", det)
